@@ -9,6 +9,10 @@
                    from the prefix rules `TOKEN rterm [%prec NAME] { ... }`,
   * `postfixRules` the three postfix forms  rterm '.' T_IDENTIFIER | rterm '[' rterm ']' | rterm '(' rterm_items ')'.
 
+  * `documented`   the rows (precedence, operator) of the table in section "Operators" of doc/17-language-reference.md, in file order
+                   (`reference_matches_document`: the hand-written reference table of C15.lean is this table; the harness prints every
+                   program a third time with the parentheses THIS table requires, `doc <level> <operator>` lines of the .tbl output).
+
 `precedence_matches_reference` (IcingaProofs/C15.lean) normalises these tables to operator levels and
 compares them with the table of doc/17-language-reference.md; a second output (plain text, for the C++
 harness) carries the same normalised levels so that generated programs are printed with exactly the
@@ -262,13 +266,41 @@ def rules(yy):
     return sorted(binary.items()), unary, postfix
 
 
+DOC_ROW = re.compile(r"^(?:`([^`]+)`|<code>(.*?)</code>)\s*\|\s*(\d+)\s*\|")
+
+
+def documented(md):
+    """doc/17-language-reference.md, section "### Operators": the rows `operator | precedence | …` in file order as (level, operator text).
+    The document is the REFERENCE of the property: the table is read from it on every run (no hand-made copy)."""
+    m = re.search(r"^###\s+Operators\b.*$", md, re.M)
+    if not m:
+        raise Lost("doc/17-language-reference.md: section `### Operators` not found")
+    rest = md[m.end():]
+    n = re.search(r"^#{1,3}\s", rest, re.M)
+    sect = rest[:n.start()] if n else rest
+    if "descending precedence" not in sect:
+        raise Lost("doc/17-language-reference.md: the operator table no longer says it is sorted by descending precedence")
+    rows = []
+    for line in sect.splitlines():
+        r = DOC_ROW.match(line.strip())
+        if r:
+            op = (r.group(1) if r.group(1) is not None else r.group(2)).replace("&#124;", "|").strip()
+            rows.append((int(r.group(3)), op))
+        elif line.strip().startswith(("`", "<code>")):
+            raise Lost("doc/17-language-reference.md: cannot read operator table row %r" % line[:60])
+    if len(rows) < 30:
+        raise Lost("doc/17-language-reference.md: operator table has only %d readable rows" % len(rows))
+    return rows
+
+
 def extract(repo):
     yy = _read(repo, "lib/config/config_parser.yy")
     ll = _read(repo, "lib/config/config_lexer.ll")
     block = precedence_block(yy)
     lex = lexemes(ll)
     binary, unary, postfix = rules(yy)
-    return {"block": block, "lexemes": lex, "binary": binary, "unary": unary, "postfix": postfix}
+    doc = documented(_read(repo, "doc/17-language-reference.md"))
+    return {"block": block, "lexemes": lex, "binary": binary, "unary": unary, "postfix": postfix, "documented": doc}
 
 
 def _q(s):
@@ -302,6 +334,11 @@ def render(t):
     out.append(",\n".join("  (%s, %s, %s)" % (_q(a), _q(b), _q(c)) for a, b, c in t["unary"]))
     out += ["]", "", "/-- Postfix forms present in the grammar (member, subscript, call). -/",
             "def postfixRules : List String := [" + ", ".join(_q(x) for x in t["postfix"]) + "]",
+            "", "/-- doc/17-language-reference.md, table of section \"Operators\" (\"sorted by descending precedence\"): (precedence, operator)",
+            "    rows in file order, read from the document on every run. -/",
+            "def documented : List (Nat × String) := [",
+            ",\n".join("  (%d, %s)" % (l, _q(o)) for l, o in t["documented"]),
+            "]",
             "", "end Icinga.Gen.Precedence", ""]
     return "\n".join(out)
 
@@ -317,6 +354,8 @@ def render_tbl(t):
         out.append("binary %s %s" % (k, v))
     for a, b, c in t["unary"]:
         out.append("unary %s %s %s" % (a, b, c))
+    for l, o in t["documented"]:
+        out.append("doc %d %s" % (l, o))
     return "\n".join(out) + "\n"
 
 
